@@ -114,26 +114,28 @@ def commentCompressed (garbled : Bool) (depth : Nat) (t : String) : String :=
 def cText (compressed garbled : Bool) (depth : Nat) (t : String) : String :=
   if compressed then commentCompressed garbled depth t else t
 
-def canonBody (cg : Bool × Bool) (depth : Nat) : List (BodyItem String) → String
+def canonBody (cg : Bool × Bool) (drop : String → Bool) (depth : Nat) : List (BodyItem String) → String
   | [] => ""
-  | .prop n v :: r => "D" ++ hexOfString n ++ ":" ++ hexOfString v ++ ";" ++ canonBody cg depth r
-  | .comment t :: r => "C" ++ hexOfString (cText cg.1 cg.2 depth t) ++ ";" ++ canonBody cg depth r
-  | .arule n a :: r => "a" ++ hexOfString n ++ "|" ++ hexOfString a ++ ";" ++ canonBody cg depth r
+  | .prop n v :: r => "D" ++ hexOfString n ++ ":" ++ hexOfString v ++ ";" ++ canonBody cg drop depth r
+  | .comment t :: r =>
+      (if drop t then "" else "C" ++ hexOfString (cText cg.1 cg.2 depth t) ++ ";") ++ canonBody cg drop depth r
+  | .arule n a :: r => "a" ++ hexOfString n ++ "|" ++ hexOfString a ++ ";" ++ canonBody cg drop depth r
 
 /- what the writer prints of one item: `Rule::write` prints nothing for an empty body,
 `MediaRule::write` nothing for an empty item list; `cg` = (compressed, garbling deviation on),
-`depth` = number of enclosing blocks -/
+`depth` = number of enclosing blocks; `drop` = the comments `Comment::write` prints nothing for
+(the emptiness tests of `Rule::write`/`MediaRule::write` look at the items, dropped comments included) -/
 mutual
-def canonItem (cg : Bool × Bool) (depth : Nat) : Item String → String
-  | .comment t => "C" ++ hexOfString (cText cg.1 cg.2 depth t) ++ ";"
-  | .rule s b => if b.isEmpty then "" else "R" ++ hexOfString s ++ "{" ++ canonBody cg (depth + 1) b ++ "}"
+def canonItem (cg : Bool × Bool) (drop : String → Bool) (depth : Nat) : Item String → String
+  | .comment t => if drop t then "" else "C" ++ hexOfString (cText cg.1 cg.2 depth t) ++ ";"
+  | .rule s b => if b.isEmpty then "" else "R" ++ hexOfString s ++ "{" ++ canonBody cg drop (depth + 1) b ++ "}"
   | .prop n v => "D" ++ hexOfString n ++ ":" ++ hexOfString v ++ ";"
-  | .media a b => if b.isEmpty then "" else "M" ++ hexOfString a ++ "{" ++ canonItems cg (depth + 1) b ++ "}"
-  | .atrule n a b => "A" ++ hexOfString n ++ "|" ++ hexOfString a ++ "{" ++ canonItems cg (depth + 1) b ++ "}"
+  | .media a b => if b.isEmpty then "" else "M" ++ hexOfString a ++ "{" ++ canonItems cg drop (depth + 1) b ++ "}"
+  | .atrule n a b => "A" ++ hexOfString n ++ "|" ++ hexOfString a ++ "{" ++ canonItems cg drop (depth + 1) b ++ "}"
   | .arule n a => "a" ++ hexOfString n ++ "|" ++ hexOfString a ++ ";"
-def canonItems (cg : Bool × Bool) (depth : Nat) : List (Item String) → String
+def canonItems (cg : Bool × Bool) (drop : String → Bool) (depth : Nat) : List (Item String) → String
   | [] => ""
-  | i :: r => canonItem cg depth i ++ canonItems cg depth r
+  | i :: r => canonItem cg drop depth i ++ canonItems cg drop depth r
 end
 
 end Dest
